@@ -613,6 +613,10 @@ func wellFormedHolding(b []byte, o sOpts, roots []string, want, allowed []string
 		if int(h.IndexOffset) != 51+o.Dpad+len(payload)+o.Ipad {
 			return "index offset inconsistent"
 		}
+		// the index of a CARv2 runs to the end of the file
+		if ix.Consumed != len(h.Index) {
+			return fmt.Sprintf("bytes after the index: %d", len(h.Index)-ix.Consumed)
+		}
 	}
 	rd, err := carv2.NewReader(bytes.NewReader(b))
 	if err != nil {
